@@ -211,7 +211,7 @@ class StateWatch:
                     if gv.__module__ == mn and id(gv) not in seen:
                         seen.add(id(gv))
                         self.targets.append(("vars(%s)" % full, lambda c=gv: freeze({k: v for k, v in vars(c).items()
-                                                                                      if k not in ("__dict__", "__weakref__")})))
+                                                                                      if k not in ("__dict__", "__weakref__", "__slotnames__")})))   # __slotnames__: cache written by copyreg on copy.copy
                         for an, av in list(vars(gv).items()):
                             add_func("%s.%s" % (full, an), av)
                 elif isinstance(gv, (dict, list, set)):
@@ -307,28 +307,38 @@ class Rcp:
     hdr: how the recipient header argument is passed: "omit" (argument not given at all),
          "none", "empty" ({}), "dict" (a fresh dict)."""
 
-    def __init__(self, alg, key, p2s=None, p2c=None, preset=None, sender=None, alg_at="recipient", hdr="dict"):
+    def __init__(self, alg, key, p2s=None, p2c=None, preset=None, sender=None, alg_at="recipient", hdr="dict",
+                 generated=False):
         self.alg, self.key, self.p2s, self.p2c, self.preset, self.sender = alg, key, p2s, p2c, preset, sender
         self.alg_at, self.hdr = alg_at, hdr
+        # generated: the ephemeral key found on the recipient was generated by an earlier encryption of
+        # the same object (recipient._ephemeral_key_generated), i.e. it is not a caller preset
+        self.generated = generated
         if alg_at == "recipient":
             self.hdr = "dict"
 
     def coq(self):
-        return ('{| r_alg := "%s"; r_key := %s; r_has_p2s := %s; r_p2c := %s; r_preset_epk := %s; r_sender := %s |}'
+        return ('{| r_alg := "%s"; r_key := %s; r_has_p2s := %s; r_p2c := %s; r_preset_epk := %s; '
+                'r_epk_generated := %s; r_sender := %s |}'
                 % (self.alg, c_keydesc(self.key), c_bool(self.p2s is not None), c_opt(self.p2c, c_N),
-                   c_opt(self.preset, c_keydesc), c_opt(self.sender, c_keydesc)))
+                   c_opt(self.preset, c_keydesc), c_bool(self.generated), c_opt(self.sender, c_keydesc)))
+
+    @property
+    def caller_preset(self):
+        return None if self.generated else self.preset
 
     def js(self):
         return {"alg": self.alg, "key": list(self.key), "p2s": self.p2s.hex() if self.p2s else None, "p2c": self.p2c,
                 "preset": list(self.preset) if self.preset else None, "sender": list(self.sender) if self.sender else None,
-                "alg_at": self.alg_at, "hdr": self.hdr}
+                "alg_at": self.alg_at, "hdr": self.hdr, "generated": self.generated}
 
     @staticmethod
     def from_js(j):
         t = lambda x: tuple(x) if x else None
         alg_at = j.get("alg_at") or ("protected" if j.get("alg_in_protected") else "recipient")
         return Rcp(j["alg"], tuple(j["key"]), bytes.fromhex(j["p2s"]) if j["p2s"] else None, j["p2c"],
-                   t(j["preset"]), t(j["sender"]), alg_at, j.get("hdr", "none" if alg_at != "recipient" else "dict"))
+                   t(j["preset"]), t(j["sender"]), alg_at, j.get("hdr", "none" if alg_at != "recipient" else "dict"),
+                   j.get("generated", False))
 
 
 class Config:
@@ -374,87 +384,109 @@ class Runner:
             h["p2c"] = r.p2c
         return h
 
-    def encrypt(self, cfg):
-        """-> ("ok", token-ish) | ("err", exc).  FRESH message and header objects per call;
-        the header argument is really omitted when r.hdr == "omit"."""
-        from joserfc import jwe
+    def build_obj(self, cfg):
+        """-> (message object, key to hand to encrypt_json or None).  FRESH message and header
+        objects; the header argument is really omitted when r.hdr == "omit"."""
         from joserfc.rfc7516.models import GeneralJSONEncryption, FlattenedJSONEncryption, CompactEncryption
         pt = b"C18 payload"
-        try:
-            if cfg.is_compact:
-                r = cfg.rcps[0]
-                protected = {"alg": r.alg, "enc": cfg.enc}
-                extra = self.headers_for(r)
-                if cfg.zip:
-                    protected["zip"] = "DEF"
-                if cfg.ser == "compact":
-                    protected.update(extra)
-                    tok = jwe.encrypt_compact(protected, pt, self.keys.get(r.key), registry=self.reg,
-                                              sender_key=self.keys.get(r.sender))
-                    return ("ok", tok)
-                from joserfc.rfc7516.message import perform_encrypt
-                from joserfc.rfc7516.compact import represent_compact
-                key = self.keys.get(r.key)
-                if r.hdr != "dict":
-                    protected.update(extra)
-                obj = CompactEncryption(protected, pt)
-                if r.hdr == "omit":
-                    obj.attach_recipient(key)
-                elif r.hdr == "none":
-                    obj.attach_recipient(key, None)
-                elif r.hdr == "empty":
-                    obj.attach_recipient(key, {})
-                else:
-                    obj.attach_recipient(key, dict(extra) if extra else {"kid": "c18"})
-                if r.sender is not None:
-                    obj.recipient.sender_key = self.keys.get(r.sender)
-                perform_encrypt(obj, self.reg)
-                return ("ok", represent_compact(obj).decode("ascii"))
-            protected = {"enc": cfg.enc}
-            unprotected = None
+        if cfg.ser == "compact_obj":
+            r = cfg.rcps[0]
+            protected = {"alg": r.alg, "enc": cfg.enc}
+            extra = self.headers_for(r)
             if cfg.zip:
                 protected["zip"] = "DEF"
-            for r in cfg.rcps:
-                if r.alg_at == "unprotected" and unprotected is None:
-                    unprotected = {}
-            cls = FlattenedJSONEncryption if cfg.ser == "flat" else GeneralJSONEncryption
-            obj = cls(protected, pt, unprotected, cfg.aad)
-            via_json = cfg.keys_via == "encrypt_json" and len(cfg.rcps) >= 1
-            for r in cfg.rcps:
-                extra = self.headers_for(r)
-                key = None if via_json else self.keys.get(r.key)
-                shared = protected if r.alg_at == "protected" else unprotected
-                if r.alg_at == "recipient":
-                    h = {"alg": r.alg}
-                    h.update(extra)
-                    obj.add_recipient(h, key)
-                    continue
-                shared["alg"] = r.alg
-                if r.hdr == "dict":
-                    h = dict(extra) if extra else {"kid": "c18"}
-                    obj.add_recipient(h, key)
-                    continue
-                shared.update(extra)
-                if r.hdr == "omit":
-                    if key is None:
-                        obj.add_recipient()
-                    else:
-                        obj.add_recipient(key=key)
-                elif r.hdr == "none":
-                    obj.add_recipient(None, key)
+            key = self.keys.get(r.key)
+            if r.hdr != "dict":
+                protected.update(extra)
+            obj = CompactEncryption(protected, pt)
+            if r.hdr == "omit":
+                obj.attach_recipient(key)
+            elif r.hdr == "none":
+                obj.attach_recipient(key, None)
+            elif r.hdr == "empty":
+                obj.attach_recipient(key, {})
+            else:
+                obj.attach_recipient(key, dict(extra) if extra else {"kid": "c18"})
+            if r.sender is not None:
+                obj.recipient.sender_key = self.keys.get(r.sender)
+            return obj, None
+        protected = {"enc": cfg.enc}
+        unprotected = None
+        if cfg.zip:
+            protected["zip"] = "DEF"
+        for r in cfg.rcps:
+            if r.alg_at == "unprotected" and unprotected is None:
+                unprotected = {}
+        cls = FlattenedJSONEncryption if cfg.ser == "flat" else GeneralJSONEncryption
+        obj = cls(protected, pt, unprotected, cfg.aad)
+        via_json = cfg.keys_via == "encrypt_json" and len(cfg.rcps) >= 1
+        for r in cfg.rcps:
+            extra = self.headers_for(r)
+            key = None if via_json else self.keys.get(r.key)
+            shared = protected if r.alg_at == "protected" else unprotected
+            if r.alg_at == "recipient":
+                h = {"alg": r.alg}
+                h.update(extra)
+                obj.add_recipient(h, key)
+                continue
+            shared["alg"] = r.alg
+            if r.hdr == "dict":
+                h = dict(extra) if extra else {"kid": "c18"}
+                obj.add_recipient(h, key)
+                continue
+            shared.update(extra)
+            if r.hdr == "omit":
+                if key is None:
+                    obj.add_recipient()
                 else:
-                    obj.add_recipient({}, key)
-            for r, rc in zip(cfg.rcps, obj.recipients):
-                if r.preset is not None:
-                    rc.ephemeral_key = self.preset_key(r.preset)
-                if r.sender is not None:
-                    rc.sender_key = self.keys.get(r.sender)
-            out = jwe.encrypt_json(obj, self.keys.get(cfg.rcps[0].key) if via_json else None, registry=self.reg)
-            return ("ok", out)
+                    obj.add_recipient(key=key)
+            elif r.hdr == "none":
+                obj.add_recipient(None, key)
+            else:
+                obj.add_recipient({}, key)
+        for r, rc in zip(cfg.rcps, obj.recipients):
+            if r.preset is not None:
+                rc.ephemeral_key = self.preset_key(r.preset)
+            if r.sender is not None:
+                rc.sender_key = self.keys.get(r.sender)
+        return obj, (self.keys.get(cfg.rcps[0].key) if via_json else None)
+
+    def encrypt_obj(self, obj, json_key=None):
+        """encrypt an existing message object -> ("ok", token) | ("err", exc); the token is a private copy"""
+        from joserfc import jwe
+        from joserfc.rfc7516.models import CompactEncryption
+        try:
+            if isinstance(obj, CompactEncryption):
+                from joserfc.rfc7516.message import perform_encrypt
+                from joserfc.rfc7516.compact import represent_compact
+                perform_encrypt(obj, self.reg)
+                return ("ok", represent_compact(obj).decode("ascii"))
+            out = jwe.encrypt_json(obj, json_key, registry=self.reg)
+            return ("ok", json.loads(json.dumps(out)))
         except BaseException as e:  # noqa
             if isinstance(e, (KeyboardInterrupt, SystemExit)):
                 raise
             return ("err", e)
+
+    def encrypt(self, cfg):
+        """-> ("ok", token-ish) | ("err", exc).  FRESH message and header objects per call."""
+        from joserfc import jwe
+        try:
+            if cfg.ser == "compact":
+                r = cfg.rcps[0]
+                protected = {"alg": r.alg, "enc": cfg.enc}
+                protected.update(self.headers_for(r))
+                if cfg.zip:
+                    protected["zip"] = "DEF"
+                tok = jwe.encrypt_compact(protected, b"C18 payload", self.keys.get(r.key), registry=self.reg,
+                                          sender_key=self.keys.get(r.sender))
+                return ("ok", tok)
+            obj, jk = self.build_obj(cfg)
+        except BaseException as e:  # noqa
+            if isinstance(e, (KeyboardInterrupt, SystemExit)):
+                raise
+            return ("err", e)
+        return self.encrypt_obj(obj, jk)
 
     def preset_key(self, spec):
         # a dedicated key (distinct from the recipient's own) on the given curve
@@ -497,7 +529,9 @@ class Runner:
             o = {}
             if "epk" in h:
                 vk = epk_vk(h["epk"])
-                given = pubkey_vk(self.preset_key(r.preset)) if r.preset is not None else None
+                given = getattr(r, "given_epk", None)
+                if given is None and r.caller_preset is not None and not hasattr(r, "given_epk"):
+                    given = pubkey_vk(self.preset_key(r.preset))
                 o["epk"] = self.obs(vk, w0, given)
                 vals["epk"].append((vk, h["epk"], r))
             else:
@@ -610,6 +644,90 @@ def key_for_alg(alg, enc, j):
     return ("oct", int(alg[1:4]))
 
 
+REUSE_SCENARIOS = ["same", "fresh-headers", "edit", "decrypt-reencrypt", "decrypt-otherkey",
+                   "decrypt-addrecipient", "copy", "deepcopy"]
+
+
+def derive_cfg(enc, ser, obj, specs):
+    """model input of the NEXT encryption of an existing message object, read from the state the
+    implementation itself reads: recipient.headers() ("alg", "p2s", "p2c"), recipient.ephemeral_key and
+    recipient._ephemeral_key_generated"""
+    rcps = []
+    for (kspec, sspec), rc in zip(specs, obj.recipients):
+        h = rc.headers()
+        p2s = b64d(h["p2s"]) if isinstance(h.get("p2s"), str) else None
+        eph = rc.ephemeral_key
+        gen = bool(getattr(rc, "_ephemeral_key_generated", False))
+        r = Rcp(str(h.get("alg")), kspec, p2s=p2s, p2c=h.get("p2c") if isinstance(h.get("p2c"), int) else None,
+                preset=((eph.key_type, eph.curve_name) if eph is not None else None), sender=sspec, generated=gen)
+        r.given_epk = pubkey_vk(eph) if (eph is not None and not gen) else None
+        rcps.append(r)
+    return Config(enc, ser, rcps)
+
+
+def run_reuse(runner, base, scenario, call):
+    """object-REUSE histories: `call(obj, specs, json_key, step)` encrypts the given existing object and
+    returns the token (or None when the call failed)."""
+    import copy
+    from joserfc import jwe
+    from joserfc.rfc7516.models import CompactEncryption, BaseJSONEncryption
+    keys = runner.keys
+    specs = [(r.key, r.sender) for r in base.rcps]
+    obj, jk = runner.build_obj(base)
+    is_json = isinstance(obj, BaseJSONEncryption)
+
+    def decrypt(tok):
+        k = keys.get(base.rcps[0].key)
+        sk = keys.get(base.rcps[0].sender)
+        if isinstance(tok, str):
+            return jwe.decrypt_compact(tok, k, registry=runner.reg, sender_key=sk)
+        return jwe.decrypt_json(tok, k, registry=runner.reg, sender_key=sk)
+
+    if scenario == "same":
+        for i in range(3):
+            call(obj, specs, jk, "call %d on the same object" % i)
+    elif scenario == "fresh-headers":
+        prot0 = dict(obj.protected)
+        un0 = dict(obj.unprotected) if is_json and obj.unprotected is not None else None
+        hd0 = [dict(rc.header) if rc.header is not None else None for rc in obj.recipients]
+        for i in range(3):
+            call(obj, specs, jk, "call %d, header objects replaced by fresh equal ones" % i)
+            obj.protected = dict(prot0)
+            if is_json:
+                obj.unprotected = dict(un0) if un0 is not None else None
+            for rc, h in zip(obj.recipients, hd0):
+                rc.header = dict(h) if h is not None else None
+    elif scenario == "edit":
+        for i in range(3):
+            call(obj, specs, jk, "call %d after editing the plaintext" % i)
+            obj.plaintext = b"edited %d" % i
+            if is_json and obj.aad is not None:
+                obj.aad = b"aad %d" % i
+    elif scenario.startswith("decrypt"):
+        tok = call(obj, specs, jk, "first encryption")
+        if tok is None:
+            return
+        o2 = decrypt(tok)
+        o2.plaintext = b"edited after decryption"
+        if scenario == "decrypt-otherkey":
+            k0 = base.rcps[0].key
+            other = (k0[0], k0[1], "other")
+            for rc in o2.recipients:
+                rc.recipient_key = keys.get(other)
+            specs = [(other, sp) for (_, sp) in specs]
+        elif scenario == "decrypt-addrecipient" and isinstance(o2, BaseJSONEncryption):
+            o2.add_recipient({"alg": "A256KW"}, keys.get(("oct", 256)))
+            specs = [(sp[0], sp[1]) for sp in specs][:len(o2.recipients) - 1] + [(("oct", 256), None)]
+        call(o2, specs, None, "re-encryption of the object returned by decrypt")
+        call(o2, specs, None, "second re-encryption of that object")
+    elif scenario in ("copy", "deepcopy"):
+        if call(obj, specs, jk, "first encryption") is None:
+            return
+        c = copy.copy(obj) if scenario == "copy" else copy.deepcopy(obj)
+        call(c, specs, None, "encryption of the %s of an encrypted object" % scenario)
+        call(obj, specs, None, "encryption of the original after its copy was encrypted")
+
+
 def run(ctx):
     ok, log = ctx.prove()
     from joserfc import jwe  # noqa: F401
@@ -683,12 +801,53 @@ def _run(ctx, ok, log, icp, reg, ALGS, ENCS, unknown_enc):
         state[0] = now
         return r
 
+    def direct_oracle(cfg, vals, where, acc):
+        """sizes, uniqueness over the whole run, curve of epk, default count; for one produced token"""
+        # ---- direct oracle on this token
+        exp_iv, exp_cek = RFC_SIZES[cfg.enc]
+        iv = vals["iv"]
+        if len(iv) != exp_iv:
+            ctx.violation({"kind": "size", "what": "iv"}, "IV of %d octets for %s (expected %d)" % (len(iv), cfg.enc, exp_iv), where)
+        check_unique("iv", iv, where)
+        acc['iv'].append(iv)
+        cek_vals = {c for c, _ in vals["cek"]}
+        if len(cek_vals) != 1:
+            ctx.violation({"kind": "cek-not-shared"}, "recipients of one message recover different CEKs (%s)" % cfg.label(), where)
+        for c in cek_vals:
+            if len(c) != exp_cek:
+                ctx.violation({"kind": "size", "what": "cek"}, "CEK of %d octets for %s (expected %d)" % (len(c), cfg.enc, exp_cek), where)
+            # randomly generated CEKs only (direct modes use the shared / agreed key)
+            if not any(r.alg in ("dir", "ECDH-ES", "ECDH-1PU") for r in cfg.rcps):
+                check_unique("cek", c, where)
+                acc['cek'].append(c)
+        for s in vals["p2s"]:
+            if len(s) < 8:
+                ctx.violation({"kind": "size", "what": "p2s"}, "generated PBES2 salt input of %d octets (< 8)" % len(s), where)
+            check_unique("p2s", s, where)
+            acc['p2s'].append(s)
+        for c in vals["p2c"]:
+            if not isinstance(c, int) or c < 1000:
+                ctx.violation({"kind": "p2c"}, "default PBES2 count %r is below 1000" % (c,), where)
+        for g in vals["gcmiv"]:
+            if len(g) != 12:
+                ctx.violation({"kind": "size", "what": "gcmiv"}, "AES-GCM key wrap IV of %d octets (expected 12)" % len(g), where)
+            check_unique("gcmiv", g, where)
+            acc['gcmiv'].append(g)
+        for vk, epk, r in vals["epk"]:
+            if epk.get("kty") != r.key[0] or epk.get("crv") != r.key[1]:
+                ctx.violation({"kind": "epk-curve"}, "epk %s/%s is not on the recipient key's curve %s/%s" % (
+                    epk.get("kty"), epk.get("crv"), r.key[0], r.key[1]), where)
+            if "d" in epk:
+                ctx.violation({"kind": "epk-private"}, "epk header carries the private member d", where)
+            if r.caller_preset is None:
+                check_unique("epk", vk, where)
+
     def one_(cfg, reps, tag):
         """run cfg `reps` times (>= 3 for every configuration); emit one Coq case; apply the direct oracle"""
         prepare_keys(cfg)
         w_first = len(rec.log)
         first = None
-        ivs, ceks, p2ss, gcms = [], [], [], []
+        acc = {'iv': [], 'cek': [], 'p2s': [], 'gcmiv': []}
         same = True
         for k in range(reps):
             w0 = len(rec.log)
@@ -711,44 +870,7 @@ def _run(ctx, ok, log, icp, reg, ALGS, ENCS, unknown_enc):
                                   {"config": cfg.js(), "rep": k})
                     return
                 rep = (None, shape, iv_obs, robs)
-                # ---- direct oracle on this token
-                exp_iv, exp_cek = RFC_SIZES[cfg.enc]
-                iv = vals["iv"]
-                if len(iv) != exp_iv:
-                    ctx.violation({"kind": "size", "what": "iv"}, "IV of %d octets for %s (expected %d)" % (len(iv), cfg.enc, exp_iv), where)
-                check_unique("iv", iv, where)
-                ivs.append(iv)
-                cek_vals = {c for c, _ in vals["cek"]}
-                if len(cek_vals) != 1:
-                    ctx.violation({"kind": "cek-not-shared"}, "recipients of one message recover different CEKs (%s)" % cfg.label(), where)
-                for c in cek_vals:
-                    if len(c) != exp_cek:
-                        ctx.violation({"kind": "size", "what": "cek"}, "CEK of %d octets for %s (expected %d)" % (len(c), cfg.enc, exp_cek), where)
-                    # randomly generated CEKs only (direct modes use the shared / agreed key)
-                    if not any(r.alg in ("dir", "ECDH-ES", "ECDH-1PU") for r in cfg.rcps):
-                        check_unique("cek", c, where)
-                        ceks.append(c)
-                for s in vals["p2s"]:
-                    if len(s) < 8:
-                        ctx.violation({"kind": "size", "what": "p2s"}, "generated PBES2 salt input of %d octets (< 8)" % len(s), where)
-                    check_unique("p2s", s, where)
-                    p2ss.append(s)
-                for c in vals["p2c"]:
-                    if not isinstance(c, int) or c < 1000:
-                        ctx.violation({"kind": "p2c"}, "default PBES2 count %r is below 1000" % (c,), where)
-                for g in vals["gcmiv"]:
-                    if len(g) != 12:
-                        ctx.violation({"kind": "size", "what": "gcmiv"}, "AES-GCM key wrap IV of %d octets (expected 12)" % len(g), where)
-                    check_unique("gcmiv", g, where)
-                    gcms.append(g)
-                for vk, epk, r in vals["epk"]:
-                    if epk.get("kty") != r.key[0] or epk.get("crv") != r.key[1]:
-                        ctx.violation({"kind": "epk-curve"}, "epk %s/%s is not on the recipient key's curve %s/%s" % (
-                            epk.get("kty"), epk.get("crv"), r.key[0], r.key[1]), where)
-                    if "d" in epk:
-                        ctx.violation({"kind": "epk-private"}, "epk header carries the private member d", where)
-                    if r.preset is None:
-                        check_unique("epk", vk, where)
+                direct_oracle(cfg, vals, where, acc)
                 # fresh header per call is an input condition; the implementation must not need more
             else:
                 cls = exn_class(res[1])
@@ -772,7 +894,7 @@ def _run(ctx, ok, log, icp, reg, ALGS, ENCS, unknown_enc):
         meta.append({"config": cfg.js(), "reps": reps, "impl": {"err": err, "draws": shape, "iv": iv_obs, "recipients": robs}})
         # ---- no fixed bits
         if reps >= 100 and same:
-            for kind, samples in (("iv", ivs), ("cek", ceks), ("p2s", p2ss), ("gcmiv", gcms)):
+            for kind, samples in acc.items():
                 if len(samples) >= 100:
                     per = {}
                     for s in samples:
@@ -951,6 +1073,109 @@ def _run(ctx, ok, log, icp, reg, ALGS, ENCS, unknown_enc):
         if len(cfg.rcps) > 1:
             dist["multi_recipient"] += 1
 
+    # ---------------- object REUSE histories ------------------------------
+    # the same caller-visible message object encrypted again / after decryption / after copying: every
+    # emitted IV, CEK, GCM-KW iv (and p2s / epk unless found in the object's header / ephemeral_key)
+    # must be a draw of THAT call, whatever segments the object already carries
+    reuse_stats = {"calls": 0, "failed_calls": 0, "p2s_kept_in_header": 0, "epk_kept_on_recipient": 0}
+
+    def reuse_scenario(base, scenario):
+        prepare_keys(base)
+        for r in base.rcps:
+            keys.get((r.key[0], r.key[1], "other"))
+        keys.get(("oct", 256))
+        dummy = {'iv': [], 'cek': [], 'p2s': [], 'gcmiv': []}
+
+        def call(obj, specs, jk, step):
+            from joserfc.rfc7516.models import CompactEncryption
+            ser = "compact_obj" if isinstance(obj, CompactEncryption) else ("flat" if getattr(obj, "flattened", False) else "general")
+            try:
+                cfg = derive_cfg(base.enc, ser, obj, specs)
+            except BaseException as e:  # noqa
+                if isinstance(e, (KeyboardInterrupt, SystemExit)):
+                    raise
+                ctx.violation({"kind": "reuse-state-unreadable"}, "state of a reused object cannot be read: %r" % (e,),
+                              {"reuse": scenario, "config": base.js(), "step": step})
+                return None
+            where = {"reuse": scenario, "step": step, "config": base.js()}
+            w0 = len(rec.log)
+            res = runner.encrypt_obj(obj, jk)
+            w1 = len(rec.log)
+            shape = [(s_, n_) for (s_, n_, _) in rec.log[w0:w1]]
+            reuse_stats["calls"] += 1
+            tok = None
+            if res[0] == "ok":
+                tok = res[1]
+                try:
+                    iv_obs, robs, vals = runner.observe(cfg, tok, w0)
+                except BaseException as e:  # noqa
+                    if isinstance(e, (KeyboardInterrupt, SystemExit)):
+                        raise
+                    ctx.violation({"kind": "cek-not-recoverable"},
+                                  "token of a reused object (%s, %s, %s) cannot be decrypted / observed: %r" % (base.label(), scenario, step, e), where)
+                    return None
+                direct_oracle(cfg, vals, where, dummy)
+                for r, o in zip(cfg.rcps, robs):
+                    if r.p2s is not None and base.rcps[0].p2s is None:
+                        reuse_stats["p2s_kept_in_header"] += 1
+                    # REQUIRED: without a caller-preset ephemeral key, the epk of every encryption of a reused
+                    # object is a key generated during THAT call
+                    if all(b.preset is None for b in base.rcps) and o["epk"][0] not in ("none", "draw"):
+                        reuse_stats["epk_kept_on_recipient"] += 1
+                        ctx.violation({"kind": "object-reuse", "what": "epk"},
+                                      "encrypting a reused message object (%s, scenario %s, %s) emits an ephemeral key that was not "
+                                      "generated during this call (%s): the key of a previous encryption is reused" % (
+                                          base.label(), scenario, step, o["epk"][0]), where)
+                err = None
+            else:
+                reuse_stats["failed_calls"] += 1
+                err, iv_obs, robs = exn_class(res[1]), ("none",), []
+            ctx.note_case(("reuse", scenario, base.label(), step))
+            cases.append("CEncrypt %s 1%%N %s %s %s %s %s" % (
+                c_N(w0), cfg.coq_msg(), "None" if err is None else "(Some %s)" % c_exn(err),
+                c_list("(%s, %s)" % (c_site(s_), c_N(n_)) for s_, n_ in shape),
+                c_obs(iv_obs), c_list(c_orecip(o) for o in robs)))
+            meta.append({"config": base.js(), "reuse": scenario, "step": step, "state_before_call": cfg.js(), "reps": 1,
+                         "impl": {"err": err, "draws": shape, "iv": iv_obs, "recipients": robs}})
+            return tok
+        try:
+            run_reuse(runner, base, scenario, call)
+        except BaseException as e:  # noqa
+            if isinstance(e, (KeyboardInterrupt, SystemExit)):
+                raise
+            ctx.violation({"kind": "reuse-scenario-failed"},
+                          "object reuse scenario %s on %s raised outside encryption: %r" % (scenario, base.label(), e),
+                          {"reuse": scenario, "config": base.js()})
+        now = watch.snap()
+        ch = watch.changed(state[0], now)
+        if ch:
+            ctx.violation({"kind": "state-leak"}, "reuse scenario %s on %s changed shared state: %s" % (scenario, base.label(), ", ".join(ch[:6])),
+                          {"reuse": scenario, "config": base.js(), "changed": ch[:20]})
+        state[0] = now
+
+    reuse_bases = []
+    for ai, alg in enumerate(ALGS):
+        for si, ser in enumerate(("flat", "general", "compact_obj")):
+            enc = ENCS[(ai + si) % 3] if "1PU+" in alg else ENCS[(ai + 3 * si) % len(ENCS)]
+            kspec = key_for_alg(alg, enc, ai + si)
+            sender = (kspec[0], kspec[1], "sender") if "1PU" in alg else None
+            alg_at, hdr = [("recipient", "dict"), ("protected", "omit"), ("unprotected", "none")][(ai + si) % 3]
+            if ser == "compact_obj":
+                alg_at, hdr = "protected", HDRS[ai % 4]
+            reuse_bases.append(Config(enc, ser, [Rcp(alg, kspec, sender=sender, alg_at=alg_at, hdr=hdr)],
+                                      aad=(b"aad" if ser != "compact_obj" and ai % 2 else None),
+                                      keys_via=("encrypt_json" if (ai + si) % 3 == 1 else "recipient")))
+    for enc, algs3 in (("A128GCM", ["A128KW", "A128GCMKW", "PBES2-HS256+A128KW"]), ("A256CBC-HS512", ["A128GCMKW", "A128GCMKW"]),
+                       ("A128CBC-HS256", ["PBES2-HS256+A128KW", "A128KW"])):
+        reuse_bases.append(Config(enc, "general", [Rcp(a, ("oct", 128)) for a in algs3], aad=b"x"))
+    for bi, base in enumerate(reuse_bases):
+        scen = REUSE_SCENARIOS if (not ctx.quick or len(base.rcps) > 1) else \
+            ["same", "decrypt-reencrypt"] + [REUSE_SCENARIOS[(bi + k) % len(REUSE_SCENARIOS)] for k in (0, 3)]
+        for sc in dict.fromkeys(scen):
+            reuse_scenario(base, sc)
+    dist["reuse_scenarios"] = sum(1 for m_ in meta if "reuse" in m_)
+    ctx.coverage["object_reuse"] = reuse_stats
+
     # ---------------- key generation --------------------------------------
     native_min = 1024
 
@@ -1103,10 +1328,13 @@ def _run(ctx, ok, log, icp, reg, ALGS, ENCS, unknown_enc):
     for i in res["failing"][:20]:
         m = meta[i]
         what = m.get("config") or {k: m[k] for k in ("keygen", "arg", "private")}
+        if "reuse" in m:
+            what = {"reuse": m["reuse"], "step": m["step"], "config": m["config"], "state_before_call": m["state_before_call"]}
         ctx.violation({"kind": "correspondence", "fn": "encrypt" if "config" in m else "generate_key"},
                       "draw discipline differs from the model for %s: implementation did %s" % (
                           json.dumps(what)[:300], json.dumps(m["impl"], default=str)[:400]),
                       {"case": cases[i], "input": what, "impl": m["impl"], "reps": m["reps"],
+                       "reuse": m.get("reuse"), "config": m.get("config") if "reuse" in m else None,
                        "broken": "correspondence model/C18Cases.v:c18_check vs joserfc encrypt / generate_key",
                        "model_says": [s for s in res["shows"].values()][:1]})
     for si, err in res["errors"]:
@@ -1150,7 +1378,40 @@ def replay(path):
         recorded = rp.get("impl")
         watch = StateWatch()
         snap0 = watch.snap()
-        if cfgj:
+        if rp.get("reuse") and cfgj:
+            base = Config.from_js(cfgj)
+            seen_iv = set()
+            state = {"still": 0}
+
+            def call(obj, specs, jk, step):
+                from joserfc.rfc7516.models import CompactEncryption
+                ser = "compact_obj" if isinstance(obj, CompactEncryption) else ("flat" if getattr(obj, "flattened", False) else "general")
+                cfg = derive_cfg(base.enc, ser, obj, specs)
+                w0 = len(icp.rec.log)
+                res = runner.encrypt_obj(obj, jk)
+                shape = [(s_, n_) for (s_, n_, _) in icp.rec.log[w0:]]
+                if res[0] != "ok":
+                    print(step, "draws", shape, "raised", repr(res[1]))
+                    return None
+                iv_obs, robs, vals = runner.observe(cfg, res[1], w0)
+                print(step, "| draws", shape, "| iv", vals["iv"].hex(), iv_obs, "| recipients", robs)
+                if iv_obs[0] != "draw" or vals["iv"] in seen_iv:
+                    print("  IV is not a draw of this call / repeated"); state["still"] = 1
+                seen_iv.add(vals["iv"])
+                for r, o in zip(cfg.rcps, robs):
+                    if o["gcm"][0] not in ("none", "draw") or (o["cek"][0] in ("stale", "unknown") and r.alg not in ("ECDH-ES", "ECDH-1PU")):
+                        print("  stale GCM-KW iv / CEK"); state["still"] = 1
+                    if o["epk"][0] not in ("none", "draw") and all(b.preset is None for b in base.rcps):
+                        print("  epk of the previous encryption reused"); state["still"] = 1
+                return res[1]
+            for rc in base.rcps:
+                keys.get(rc.key); keys.get((rc.key[0], rc.key[1], "other"))
+                if rc.sender: keys.get(rc.sender)
+                if rc.preset: runner.preset_key(rc.preset)
+            keys.get(("oct", 256))
+            run_reuse(runner, base, rp["reuse"], call)
+            still = state["still"]
+        elif cfgj:
             cfg = Config.from_js(cfgj)
             for rc in cfg.rcps:
                 keys.get(rc.key)
